@@ -9,7 +9,7 @@ package pfcp
 
 //@ pure func live(n *LocalNode, id uint64) bool = id != 0 && id <= uint64(len(n.sess)) && n.sess[id-1] != nil
 
-//@ pred lnodeWF(n *LocalNode) =
+//@ opaque pred lnodeWF(n *LocalNode) =
 //@      (forall i int :: 0 <= i && i < len(n.sess) && n.sess[i] != nil ==> n.sess[i].LocalID == uint64(i) + 1) &&
 //@      (forall j int :: 0 <= j && j < len(n.free) ==> 1 <= n.free[j] && n.free[j] <= uint64(len(n.sess)) && n.sess[n.free[j]-1] == nil) &&
 //@      (forall j int; k int :: 0 <= j && j < k && k < len(n.free) ==> n.free[j] != n.free[k])
@@ -20,6 +20,7 @@ package pfcp
 //@   ensures [which]  err == nil ==> sess == n.sess[lSeid-1] && sess.LocalID == lSeid
 //@   ensures [errnil] err != nil ==> sess == nil
 //@   modifies nothing
+//@   reveal lnodeWF
 //@   serves C04 C07
 //@   cases zero: lSeid == 0 | low: 0 < lSeid && lSeid < 1<<63 | edge: lSeid == 1<<63 | hi: lSeid > 1<<63
 
@@ -34,6 +35,7 @@ package pfcp
 //@                    (forall j int :: 0 <= j && j < len(n.sess) && n.sess[j] != nil ==>
 //@                        !(n.sess[j].RemoteID == rSeid && addrStr(n.sess[j].rnode.addr) == addrStr(addr)))
 //@   modifies nothing
+//@   reveal lnodeWF
 //@   serves C04 C05 C07
 //@   loop range(n.sess):
 //@     invariant [scanned] forall j int :: 0 <= j && j < idx && n.sess[j] != nil ==>
@@ -48,6 +50,13 @@ package pfcp
 //@   ensures [others] forall id uint64 :: id != s.LocalID ==> (live(n, id) == old(live(n, id))) && (old(live(n, id)) ==> n.sess[id-1] == old(n.sess[id-1]))
 //@   ensures [wf]     lnodeWF(n)
 //@   modifies n.sess, n.free, n.sess[_]
+//@   owns s.PDRIDs by s
+//@   owns s.FARIDs by s
+//@   owns s.QERIDs by s
+//@   owns s.URRIDs by s
+//@   owns s.BARIDs by s
+//@   owns s.q by s
+//@   reveal lnodeWF
 //@   serves C04 C05 C13
 //@   cases reuse: len(n.free) > 0 | grow: len(n.free) == 0
 
@@ -55,8 +64,11 @@ package pfcp
 // Session rule bookkeeping (C01, C05).  Ghost sets DP / CREATED are declared with the Driver contracts in
 // internal/forwarder; kinds: 1 PDR, 2 FAR, 3 QER, 4 URR, 5 BAR.
 
+// ownerOf is an uninterpreted, state-independent ghost function fixed when an object is allocated (`owns` clauses):
+// every map and queue of a session is owned by that session, so distinct sessions never share one (C05).
 //@ pred sessWF(s *Sess) = s != nil && s.PDRIDs != nil && s.FARIDs != nil && s.QERIDs != nil && s.URRIDs != nil && s.BARIDs != nil && s.q != nil &&
 //@      s.FARIDs != s.QERIDs && s.rnode != nil && s.rnode.driver != nil &&
+//@      ownerOf(s.PDRIDs) == s && ownerOf(s.FARIDs) == s && ownerOf(s.QERIDs) == s && ownerOf(s.URRIDs) == s && ownerOf(s.BARIDs) == s && ownerOf(s.q) == s &&
 //@      (forall p uint16 :: p in s.PDRIDs ==> s.PDRIDs[p] != nil) &&
 //@      (forall u uint32 :: u in s.URRIDs ==> s.URRIDs[u] != nil)
 
@@ -77,7 +89,7 @@ package pfcp
 
 // qWF(s): every queue of the session is a distinct, open channel whose length is within its capacity.
 //@ pred qWF(s *Sess) = s.q != nil && s.qlen >= 0 &&
-//@      (forall p uint16 :: p in s.q ==> s.q[p] != nil && !closed(s.q[p]) && 0 <= len(s.q[p]) && len(s.q[p]) <= cap(s.q[p])) &&
+//@      (forall p uint16 :: p in s.q ==> s.q[p] != nil && !closed(s.q[p]) && 0 <= len(s.q[p]) && len(s.q[p]) <= cap(s.q[p]) && ownerOf(s.q[p]) == s) &&
 //@      (forall p1 uint16; p2 uint16 :: p1 in s.q && p2 in s.q && p1 != p2 ==> s.q[p1] != s.q[p2])
 
 // sessOK(s): everything the rule methods and Close need from a live session.  Opaque: callers carry it as one
@@ -87,7 +99,7 @@ package pfcp
 //@ func (s *Sess) CreateFAR(req *ie.IE) (err error)
 //@   requires sessOK(s) && req != nil
 //@   ensures [ok]    sessOK(s)
-//@   ensures [frameok] forall t *Sess :: old(allocated(t)) && old(sessOK(t)) && old(sep2(t, s)) ==> sessOK(t)
+//@   ensures [frameok] forall t *Sess :: old(allocated(t)) && old(sessOK(t)) && t != s && t.LocalID != s.LocalID ==> sessOK(t)
 //@   ensures [rec]   ok(req.FARID()) ==> val(req.FARID()) in s.FARIDs
 //@   ensures [mono]  forall id uint32 :: id in old(s.FARIDs) ==> id in s.FARIDs
 //@   ensures [isol]  forall k RuleKey :: k.seid != s.LocalID ==> ((k in DP) == (k in old(DP)))
@@ -112,7 +124,7 @@ package pfcp
 //@ func (s *Sess) RemoveFAR(req *ie.IE) (err error)
 //@   requires sessOK(s) && req != nil
 //@   ensures [ok]    sessOK(s)
-//@   ensures [frameok] forall t *Sess :: old(allocated(t)) && old(sessOK(t)) && old(sep2(t, s)) ==> sessOK(t)
+//@   ensures [frameok] forall t *Sess :: old(allocated(t)) && old(sessOK(t)) && t != s && t.LocalID != s.LocalID ==> sessOK(t)
 //@   ensures [gone]  ok(req.FARID()) && val(req.FARID()) in old(s.FARIDs) ==> !(RuleKey(s.LocalID, 2, uint64(val(req.FARID()))) in DP)
 //@   ensures [sub]   forall k RuleKey :: k in DP ==> k in old(DP)
 //@   ensures [isol]  forall k RuleKey :: k.seid != s.LocalID ==> ((k in DP) == (k in old(DP)))
@@ -127,7 +139,7 @@ package pfcp
 //@ func (s *Sess) CreateQER(req *ie.IE) (err error)
 //@   requires sessOK(s) && req != nil
 //@   ensures [ok]    sessOK(s)
-//@   ensures [frameok] forall t *Sess :: old(allocated(t)) && old(sessOK(t)) && old(sep2(t, s)) ==> sessOK(t)
+//@   ensures [frameok] forall t *Sess :: old(allocated(t)) && old(sessOK(t)) && t != s && t.LocalID != s.LocalID ==> sessOK(t)
 //@   ensures [rec]   ok(req.QERID()) ==> val(req.QERID()) in s.QERIDs
 //@   ensures [mono]  forall id uint32 :: id in old(s.QERIDs) ==> id in s.QERIDs
 //@   ensures [isol]  forall k RuleKey :: k.seid != s.LocalID ==> ((k in DP) == (k in old(DP)))
@@ -152,7 +164,7 @@ package pfcp
 //@ func (s *Sess) RemoveQER(req *ie.IE) (err error)
 //@   requires sessOK(s) && req != nil
 //@   ensures [ok]    sessOK(s)
-//@   ensures [frameok] forall t *Sess :: old(allocated(t)) && old(sessOK(t)) && old(sep2(t, s)) ==> sessOK(t)
+//@   ensures [frameok] forall t *Sess :: old(allocated(t)) && old(sessOK(t)) && t != s && t.LocalID != s.LocalID ==> sessOK(t)
 //@   ensures [gone]  ok(req.QERID()) && val(req.QERID()) in old(s.QERIDs) ==> !(RuleKey(s.LocalID, 3, uint64(val(req.QERID()))) in DP)
 //@   ensures [sub]   forall k RuleKey :: k in DP ==> k in old(DP)
 //@   ensures [isol]  forall k RuleKey :: k.seid != s.LocalID ==> ((k in DP) == (k in old(DP)))
@@ -167,7 +179,7 @@ package pfcp
 //@ func (s *Sess) CreateBAR(req *ie.IE) (err error)
 //@   requires sessOK(s) && req != nil
 //@   ensures [ok]    sessOK(s)
-//@   ensures [frameok] forall t *Sess :: old(allocated(t)) && old(sessOK(t)) && old(sep2(t, s)) ==> sessOK(t)
+//@   ensures [frameok] forall t *Sess :: old(allocated(t)) && old(sessOK(t)) && t != s && t.LocalID != s.LocalID ==> sessOK(t)
 //@   ensures [rec]   ok(req.BARID()) ==> val(req.BARID()) in s.BARIDs
 //@   ensures [mono]  forall id uint8 :: id in old(s.BARIDs) ==> id in s.BARIDs
 //@   ensures [isol]  forall k RuleKey :: k.seid != s.LocalID ==> ((k in DP) == (k in old(DP)))
@@ -192,7 +204,7 @@ package pfcp
 //@ func (s *Sess) RemoveBAR(req *ie.IE) (err error)
 //@   requires sessOK(s) && req != nil
 //@   ensures [ok]    sessOK(s)
-//@   ensures [frameok] forall t *Sess :: old(allocated(t)) && old(sessOK(t)) && old(sep2(t, s)) ==> sessOK(t)
+//@   ensures [frameok] forall t *Sess :: old(allocated(t)) && old(sessOK(t)) && t != s && t.LocalID != s.LocalID ==> sessOK(t)
 //@   ensures [gone]  ok(req.BARID()) && val(req.BARID()) in old(s.BARIDs) ==> !(RuleKey(s.LocalID, 5, uint64(val(req.BARID()))) in DP)
 //@   ensures [sub]   forall k RuleKey :: k in DP ==> k in old(DP)
 //@   ensures [isol]  forall k RuleKey :: k.seid != s.LocalID ==> ((k in DP) == (k in old(DP)))
@@ -213,7 +225,7 @@ package pfcp
 //@ func (s *Sess) CreateURR(req *ie.IE) (err error)
 //@   requires sessOK(s) && ieWF(req)
 //@   ensures [ok]    sessOK(s)
-//@   ensures [frameok]  forall t *Sess :: old(allocated(t)) && old(sessOK(t)) && old(sep2(t, s)) ==> sessOK(t)
+//@   ensures [frameok]  forall t *Sess :: old(allocated(t)) && old(sessOK(t)) && t != s && t.LocalID != s.LocalID ==> sessOK(t)
 //@   ensures [rec]   ok(req.URRID()) ==> val(req.URRID()) in s.URRIDs
 //@   ensures [mono]  forall id uint32 :: id in old(s.URRIDs) ==> id in s.URRIDs
 //@   ensures [isol]  forall k RuleKey :: k.seid != s.LocalID ==> ((k in DP) == (k in old(DP)))
@@ -237,7 +249,7 @@ package pfcp
 //@   requires sessOK(s) && ieWF(req)
 //@   ensures [seqn]  forall u uint32 :: u in s.URRIDs ==> s.URRIDs[u].SEQN == old(s.URRIDs[u].SEQN) && s.URRIDs[u].refPdrNum == old(s.URRIDs[u].refPdrNum)
 //@   ensures [ok]    sessOK(s)
-//@   ensures [frameok]  forall t *Sess :: old(allocated(t)) && old(sessOK(t)) && old(sep2(t, s)) ==> sessOK(t)
+//@   ensures [frameok]  forall t *Sess :: old(allocated(t)) && old(sessOK(t)) && t != s && t.LocalID != s.LocalID ==> sessOK(t)
 //@   modifies s.URRIDs[_].DURAT, s.URRIDs[_].VOLUM, s.URRIDs[_].EVENT, s.URRIDs[_].MBQE, s.URRIDs[_].INAM, s.URRIDs[_].RADI, s.URRIDs[_].ISTM, s.URRIDs[_].MNOP
 //@   reveal sessOK
 //@   serves C01 C05 C07
@@ -250,7 +262,7 @@ package pfcp
 //@ func (s *Sess) RemoveURR(req *ie.IE) (usars []report.USAReport, err error)
 //@   requires sessOK(s) && req != nil
 //@   ensures [ok]    sessOK(s)
-//@   ensures [frameok]  forall t *Sess :: old(allocated(t)) && old(sessOK(t)) && old(sep2(t, s)) ==> sessOK(t)
+//@   ensures [frameok]  forall t *Sess :: old(allocated(t)) && old(sessOK(t)) && t != s && t.LocalID != s.LocalID ==> sessOK(t)
 //@   ensures [gone]  ok(req.URRID()) && val(req.URRID()) in s.URRIDs ==> !(RuleKey(s.LocalID, 4, uint64(val(req.URRID()))) in DP)
 //@   ensures [sub]   forall k RuleKey :: k in DP ==> k in old(DP)
 //@   ensures [isol]  forall k RuleKey :: k.seid != s.LocalID ==> ((k in DP) == (k in old(DP)))
@@ -273,7 +285,7 @@ package pfcp
 //@   ensures [errnil] err != nil ==> usars == nil
 //@   ensures [freshres] usars == nil || fresh(usars)
 //@   ensures [ok]    sessOK(s)
-//@   ensures [frameok]  forall t *Sess :: old(allocated(t)) && old(sessOK(t)) && old(sep2(t, s)) ==> sessOK(t)
+//@   ensures [frameok]  forall t *Sess :: old(allocated(t)) && old(sessOK(t)) && t != s && t.LocalID != s.LocalID ==> sessOK(t)
 //@   modifies nothing
 //@   reveal sessOK
 //@   serves C01 C05 C07 C12
@@ -292,7 +304,7 @@ package pfcp
 //@   ensures [termr]   forall j int :: 0 <= j && j < len(usars) ==> usars[j].USARTrigger.Flags & report.USAR_TRIG_TERMR != 0
 //@   ensures [freshres] usars == nil || fresh(usars)
 //@   ensures [ok]    sessOK(s)
-//@   ensures [frameok]  forall t *Sess :: old(allocated(t)) && old(sessOK(t)) && old(sep2(t, s)) ==> sessOK(t)
+//@   ensures [frameok]  forall t *Sess :: old(allocated(t)) && old(sessOK(t)) && t != s && t.LocalID != s.LocalID ==> sessOK(t)
 //@   modifies s.URRIDs[urrid].refPdrNum
 //@   reveal sessOK
 //@   serves C01 C05 C07 C12
@@ -308,7 +320,7 @@ package pfcp
 //@   ensures [known]   urrid in s.URRIDs ==> seq == old(s.URRIDs[urrid].SEQN) && s.URRIDs[urrid].SEQN == seq + 1
 //@   ensures [unknown] !(urrid in s.URRIDs) ==> seq == 0
 //@   ensures [ok]    sessOK(s)
-//@   ensures [frameok]  forall t *Sess :: old(allocated(t)) && old(sessOK(t)) && old(sep2(t, s)) ==> sessOK(t)
+//@   ensures [frameok]  forall t *Sess :: old(allocated(t)) && old(sessOK(t)) && t != s && t.LocalID != s.LocalID ==> sessOK(t)
 //@   modifies s.URRIDs[urrid].SEQN
 //@   reveal sessOK
 //@   serves C11 C05 C07
@@ -318,7 +330,7 @@ package pfcp
 //@ func (s *Sess) CreatePDR(req *ie.IE) (err error)
 //@   requires sessOK(s) && req != nil
 //@   ensures [ok]    sessOK(s)
-//@   ensures [frameok]  forall t *Sess :: old(allocated(t)) && old(sessOK(t)) && old(sep2(t, s)) ==> sessOK(t)
+//@   ensures [frameok]  forall t *Sess :: old(allocated(t)) && old(sessOK(t)) && t != s && t.LocalID != s.LocalID ==> sessOK(t)
 //@   ensures [isol]  forall k RuleKey :: k.seid != s.LocalID ==> ((k in DP) == (k in old(DP)))
 //@   ensures [sup]   forall k RuleKey :: k in old(DP) ==> k in DP
 //@   ensures [mono]  forall id uint16 :: id in old(s.PDRIDs) ==> id in s.PDRIDs
@@ -337,7 +349,7 @@ package pfcp
 //@ func (s *Sess) UpdatePDR(req *ie.IE) (usars []report.USAReport, err error)
 //@   requires sessOK(s) && req != nil
 //@   ensures [ok]    sessOK(s)
-//@   ensures [frameok]  forall t *Sess :: old(allocated(t)) && old(sessOK(t)) && old(sep2(t, s)) ==> sessOK(t)
+//@   ensures [frameok]  forall t *Sess :: old(allocated(t)) && old(sessOK(t)) && t != s && t.LocalID != s.LocalID ==> sessOK(t)
 //@   ensures [dp]    DP == old(DP)
 //@   ensures [termr] forall j int :: 0 <= j && j < len(usars) ==> usars[j].USARTrigger.Flags & report.USAR_TRIG_TERMR != 0
 //@   modifies s.PDRIDs[_].RelatedURRIDs, s.URRIDs[_].refPdrNum
@@ -356,7 +368,7 @@ package pfcp
 //@ func (s *Sess) RemovePDR(req *ie.IE) (usars []report.USAReport, err error)
 //@   requires sessOK(s) && req != nil
 //@   ensures [ok]    sessOK(s)
-//@   ensures [frameok]  forall t *Sess :: old(allocated(t)) && old(sessOK(t)) && old(sep2(t, s)) ==> sessOK(t)
+//@   ensures [frameok]  forall t *Sess :: old(allocated(t)) && old(sessOK(t)) && t != s && t.LocalID != s.LocalID ==> sessOK(t)
 //@   ensures [gone]  ok(req.PDRID()) && val(req.PDRID()) in old(s.PDRIDs) ==> !(RuleKey(s.LocalID, 1, uint64(val(req.PDRID()))) in DP)
 //@   ensures [sub]   forall k RuleKey :: k in DP ==> k in old(DP)
 //@   ensures [isol]  forall k RuleKey :: k.seid != s.LocalID ==> ((k in DP) == (k in old(DP)))
@@ -382,7 +394,7 @@ package pfcp
 //@   ensures [others]    forall k RuleKey :: k.seid != s.LocalID ==> ((k in DP) == (k in old(DP)))
 //@   ensures [termr]     forall j int :: 0 <= j && j < len(usars) ==> usars[j].USARTrigger.Flags & report.USAR_TRIG_TERMR != 0
 //@   ensures [queues]    forall p uint16 :: p in s.q ==> closed(s.q[p])
-//@   ensures [frameok]      forall t *Sess :: old(allocated(t)) && old(sessOK(t)) && old(sep2(t, s)) ==> sessOK(t)
+//@   ensures [frameok]      forall t *Sess :: old(allocated(t)) && old(sessOK(t)) && t != s && t.LocalID != s.LocalID ==> sessOK(t)
 //@   modifies s.FARIDs[_], s.QERIDs[_], s.BARIDs[_], s.PDRIDs[_], s.URRIDs[_].removed, s.URRIDs[_].refPdrNum, DP, chans(s.q)
 //@   reveal sessOK
 //@   serves C01 C05 C07 C12 C13
@@ -425,8 +437,7 @@ package pfcp
 //@ func (s *Sess) Push(pdrid uint16, p []byte)
 //@   requires sessOK(s)
 //@   ensures [ok]    sessOK(s)
-//@   ensures [frameok]  forall t *Sess :: old(allocated(t)) && old(sessOK(t)) && old(sep2(t, s)) ==> sessOK(t)
-//@   ensures [keepsep] forall t *Sess :: old(sessOK(t)) && old(sep2(t, s)) && old(allocated(t)) ==> sep2(t, s)
+//@   ensures [frameok]  forall t *Sess :: old(allocated(t)) && old(sessOK(t)) && t != s && t.LocalID != s.LocalID ==> sessOK(t)
 //@   ensures [keys]  forall q uint16 :: q in s.q <==> (q in old(s.q) || q == pdrid)
 //@   ensures [same]  forall q uint16 :: q in old(s.q) ==> s.q[q] == old(s.q[q])
 //@   ensures [new]   !old(pdrid in s.q) ==> fresh(s.q[pdrid]) && cap(s.q[pdrid]) == s.qlen
@@ -439,6 +450,7 @@ package pfcp
 //@   ensures [full]  old(pdrid in s.q) && old(len(s.q[pdrid])) >= old(cap(s.q[pdrid])) ==> chtail(s.q[pdrid]) == old(chtail(s.q[pdrid]))
 //@   ensures [kept]  forall q uint16; i int :: q in old(s.q) && old(chhead(s.q[q])) <= i && i < old(chtail(s.q[q])) ==> chat(s.q[q], i) == old(chat(s.q[q], i))
 //@   modifies s.q[_], chans(s.q)
+//@   owns s.q[pdrid] by s when !old(pdrid in s.q)
 //@   reveal sessOK
 //@   serves C13 C05 C07
 
@@ -453,7 +465,7 @@ package pfcp
 //@ func (s *Sess) Pop(pdrid uint16) (pkt []byte, ok bool)
 //@   requires sessOK(s)
 //@   ensures [ok]     sessOK(s)
-//@   ensures [frameok]  forall t *Sess :: old(allocated(t)) && old(sessOK(t)) && old(sep2(t, s)) ==> sessOK(t)
+//@   ensures [frameok]  forall t *Sess :: old(allocated(t)) && old(sessOK(t)) && t != s && t.LocalID != s.LocalID ==> sessOK(t)
 //@   ensures [absent] !(pdrid in s.q) ==> !ok && pkt == nil
 //@   ensures [headel] pdrid in s.q && old(len(s.q[pdrid])) != 0 ==> ok && pkt == old(chat(s.q[pdrid], chhead(s.q[pdrid]))) &&
 //@                      chhead(s.q[pdrid]) == old(chhead(s.q[pdrid])) + 1 && chtail(s.q[pdrid]) == old(chtail(s.q[pdrid]))
@@ -469,7 +481,7 @@ package pfcp
 
 
 // dpLive(n): every rule in the data plane, and every recorded creation, belongs to a live session
-//@ pred dpLive(n *LocalNode) = (forall k RuleKey :: k in DP ==> live(n, k.seid)) && (forall k RuleKey :: k in CREATED ==> live(n, k.seid))
+//@ opaque pred dpLive(n *LocalNode) = (forall k RuleKey :: k in DP ==> live(n, k.seid)) && (forall k RuleKey :: k in CREATED ==> live(n, k.seid))
 
 //@ pred nodeWF(rn *RemoteNode) = rn != nil && rn.local != nil && rn.sess != nil && rn.driver != nil && rn.addr != nil
 
@@ -486,11 +498,12 @@ package pfcp
 //@   ensures [isol]   forall k RuleKey :: k.seid != lSeid ==> ((k in DP) == (k in old(DP))) && ((k in CREATED) == (k in old(CREATED)))
 //@   ensures [termr]  forall j int :: 0 <= j && j < len(usars) ==> usars[j].USARTrigger.Flags & report.USAR_TRIG_TERMR != 0
 //@   ensures [wf]     lnodeWF(n)
-//@   ensures [frameok]   forall t *Sess :: old(allocated(t)) && old(sessOK(t)) && old(live(n, lSeid) ==> sep2(t, n.sess[lSeid-1])) ==> sessOK(t)
+//@   ensures [frameok]   forall t *Sess :: old(allocated(t)) && old(sessOK(t)) && old(live(n, lSeid) ==> t != n.sess[lSeid-1]) && t.LocalID != lSeid ==> sessOK(t)
 //@   modifies n.free, n.sess[_], DP, CREATED,
 //@            n.sess[lSeid-1].FARIDs[_], n.sess[lSeid-1].QERIDs[_], n.sess[lSeid-1].BARIDs[_], n.sess[lSeid-1].PDRIDs[_],
 //@            n.sess[lSeid-1].URRIDs[_].removed, n.sess[lSeid-1].URRIDs[_].refPdrNum, chans(n.sess[lSeid-1].q)
 //@   reveal sessOK
+//@   reveal lnodeWF
 //@   serves C01 C04 C05 C07 C12 C13
 //@   cases zero: lSeid == 0 | low: 0 < lSeid && lSeid < 1<<63 | edge: lSeid == 1<<63 | hi: lSeid > 1<<63
 //@   after call Close:
@@ -515,10 +528,12 @@ package pfcp
 //@   ensures [mine]   forall id uint64 :: id in n.sess <==> (id in old(n.sess) || id == s.LocalID)
 //@   ensures [others] forall id uint64 :: id != s.LocalID ==> (live(n.local, id) == old(live(n.local, id))) && (old(live(n.local, id)) ==> n.local.sess[id-1] == old(n.local.sess[id-1]))
 //@   ensures [ok]     sessOK(s)
-//@   ensures [frameok] forall t *Sess :: old(allocated(t)) && old(sessOK(t)) && t.LocalID != s.LocalID ==> sessOK(t) && sep2(t, s)
+//@   ensures [frameok] forall t *Sess :: old(allocated(t)) && old(sessOK(t)) ==> sessOK(t)
 //@   ensures [wf]     lnodeWF(n.local) && dpLive(n.local)
 //@   modifies n.sess[_], n.local.sess, n.local.free, n.local.sess[_]
 //@   reveal sessOK
+//@   reveal dpLive
+//@   reveal lnodeWF
 //@   serves C04 C05 C01 C13
 
 //@ func (n *RemoteNode) DeleteSess(lSeid uint64) (usars []report.USAReport)
@@ -536,22 +551,14 @@ package pfcp
 //@                        (uint64(i) + 1 == lSeid && old(lSeid in n.sess) ==> n.local.sess[i] == nil) &&
 //@                        (!old(lSeid in n.sess) ==> n.local.sess[i] == old(n.local.sess[i])))
 //@   ensures [wf]      lnodeWF(n.local)
-//@   ensures [frameok]    forall t *Sess :: old(allocated(t)) && old(sessOK(t)) && old(live(n.local, lSeid) ==> sep2(t, n.local.sess[lSeid-1])) ==> sessOK(t)
+//@   ensures [frameok]    forall t *Sess :: old(allocated(t)) && old(sessOK(t)) && old(live(n.local, lSeid) ==> t != n.local.sess[lSeid-1]) && t.LocalID != lSeid ==> sessOK(t)
 //@   modifies n.sess[_], n.local.free, n.local.sess[_], DP, CREATED,
 //@            n.local.sess[lSeid-1].FARIDs[_], n.local.sess[lSeid-1].QERIDs[_], n.local.sess[lSeid-1].BARIDs[_], n.local.sess[lSeid-1].PDRIDs[_],
 //@            n.local.sess[lSeid-1].URRIDs[_].removed, n.local.sess[lSeid-1].URRIDs[_].refPdrNum, chans(n.local.sess[lSeid-1].q)
 //@   serves C01 C04 C05 C07 C12
 
-// Separation between sessions (C05): distinct live sessions own distinct maps and queues.
-//@ pred sep2(a *Sess, b *Sess) = a != b && a.LocalID != b.LocalID &&
-//@      a.FARIDs != b.FARIDs && a.FARIDs != b.QERIDs && a.QERIDs != b.FARIDs && a.QERIDs != b.QERIDs &&
-//@      a.BARIDs != b.BARIDs && a.PDRIDs != b.PDRIDs && a.URRIDs != b.URRIDs && a.q != b.q &&
-//@      (forall p1 uint16; p2 uint16 :: p1 in a.q && p2 in b.q ==> a.q[p1] != b.q[p2])
-
-// allSessOK(n): every live session is well-formed (opaque sessOK), allocated, and separated from every other one.
-//@ pred allSessOK(n *LocalNode) =
-//@      (forall i int :: 0 <= i && i < len(n.sess) && n.sess[i] != nil ==> sessOK(n.sess[i]) && allocated(n.sess[i])) &&
-//@      (forall i int; j int :: 0 <= i && i < len(n.sess) && 0 <= j && j < len(n.sess) && i != j && n.sess[i] != nil && n.sess[j] != nil ==> sep2(n.sess[i], n.sess[j]))
+// allSessOK(n): every live session is well-formed (opaque sessOK); separation follows from ownership.
+//@ opaque pred allSessOK(n *LocalNode) = forall i int :: 0 <= i && i < len(n.sess) && n.sess[i] != nil ==> sessOK(n.sess[i])
 
 //@ func (n *RemoteNode) Reset()
 //@   requires nodeWF(n) && lnodeWF(n.local) && allSessOK(n.local) && dpLive(n.local)
@@ -564,6 +571,9 @@ package pfcp
 //@   modifies n.sess, n.sess[_], n.local.free, n.local.sess[_], DP, CREATED,
 //@            whole(n.local.sess[0].FARIDs[_]), whole(n.local.sess[0].BARIDs[_]), whole(n.local.sess[0].PDRIDs[_]),
 //@            whole(n.local.sess[0].URRIDs[_].removed), whole(n.local.sess[0].URRIDs[_].refPdrNum), whole(chans(n.local.sess[0].q))
+//@   reveal allSessOK
+//@   reveal dpLive
+//@   reveal lnodeWF
 //@   serves C01 C04 C05
 //@   loop range(n.sess):
 //@     modifies n.sess[_], n.local.free, n.local.sess[_], DP, CREATED,
@@ -690,7 +700,7 @@ package pfcp
 //@ pred rxWF(s *PfcpServer) = forall k string :: k in s.rxTrans ==> s.rxTrans[k] != nil && s.rxTrans[k].server == s && s.rxTrans[k].id == k
 //@ pred txWF(s *PfcpServer) = forall k string :: k in s.txTrans ==> s.txTrans[k] != nil && s.txTrans[k].server == s && s.txTrans[k].id == k &&
 //@                                s.txTrans[k].timer != nil && s.txTrans[k].retransCount <= s.txTrans[k].maxRetrans && reqOK(s.txTrans[k].req)
-//@ pred srvWF(s *PfcpServer) = srvCfg(s) && s.conn != nil && s.driver != nil && s.rnodes != nil && rxWF(s) && txWF(s) && s.txSeq < 1<<24
+//@ opaque pred srvWF(s *PfcpServer) = srvCfg(s) && s.conn != nil && s.driver != nil && s.rnodes != nil && rxWF(s) && txWF(s) && s.txSeq < 1<<24
 
 //@ func (s *PfcpServer) sendReqTo(msg message.Message, addr net.Addr) (err error)
 //@   requires srvWF(s) && reqOK(msg)
@@ -702,12 +712,14 @@ package pfcp
 //@   ensures [txseq24] s.txSeq < 1<<24
 //@   ensures [wf]      srvWF(s)
 //@   modifies s.txSeq, s.txTrans[_], msg.(*message.SessionReportRequest).Header.SequenceNumber
+//@   reveal srvWF
 //@   serves C09 C10
 
 //@ func (s *PfcpServer) sendRspTo(msg message.Message, addr net.Addr) (err error)
 //@   requires srvWF(s) && msg != nil && hdrOf(msg) != nil
 //@   ensures [wf] srvWF(s)
 //@   modifies s.rxTrans[_].msgBuf
+//@   reveal srvWF
 //@   serves C08 C06
 //@   at call send:
 //@     assert [tr] recv == s.rxTrans[trKey(addr, hdrOf(msg).SequenceNumber)] && arg0 == msg
@@ -716,6 +728,59 @@ package pfcp
 //@   requires s != nil && lnodeWF(s.lnode) && (live(s.lnode, seid) ==> sessOK(s.lnode.sess[seid-1]))
 //@   ensures [dead] !live(s.lnode, seid) ==> !ok && pkt == nil
 //@   modifies chans(s.lnode.sess[seid-1].q)
+//@   reveal lnodeWF
 //@   serves C13 C04 C07
 //@   at call Pop:
 //@     assert [sess] live(s.lnode, seid) && recv == s.lnode.sess[seid-1] && arg0 == pdrid
+
+// ---------------------------------------------------------------------------------------------
+// Server invariant and handlers (C01, C04, C05, C08, C11, C12)
+
+//@ opaque pred nodesWF(s *PfcpServer) = forall id string :: id in s.rnodes ==> nodeWF(s.rnodes[id]) && s.rnodes[id].local == s.lnode && s.rnodes[id].ID == id
+//@ opaque pred linked(s *PfcpServer) = forall i int :: 0 <= i && i < len(s.lnode.sess) && s.lnode.sess[i] != nil ==>
+//@        nodeWF(s.lnode.sess[i].rnode) && s.lnode.sess[i].rnode.local == s.lnode && (uint64(i) + 1) in s.lnode.sess[i].rnode.sess
+//@ pred srvInv(s *PfcpServer) = srvWF(s) && lnodeWF(s.lnode) && allSessOK(s.lnode) && dpLive(s.lnode) && nodesWF(s) && linked(s)
+
+// A-HDRWF: a parsed request has a header (go-pfcp's parser always sets it)
+//@ func (s *PfcpServer) handleHeartbeatRequest(req *message.HeartbeatRequest, addr net.Addr)
+//@   requires s != nil && srvWF(s) && req != nil && req.Header != nil
+//@   ensures [wf] srvWF(s)
+//@   modifies s.rxTrans[_].msgBuf
+//@   serves C08 C07
+//@   at call NewHeartbeatResponse:
+//@     assert [seq]      arg0 == req.Header.SequenceNumber
+//@     assert [recovery] arg1 == ie.NewRecoveryTimeStamp(s.recoveryTime)
+//@   at call sendRspTo:
+//@     assert [to] arg1 == addr && arg0 == iface(rsp)
+
+//@ func (s *PfcpServer) NewNode(id string, addr net.Addr, driver forwarder.Driver) (n *RemoteNode)
+//@   requires s != nil
+//@   ensures [init] fresh(n) && n.ID == id && n.addr == addr && n.local == s.lnode && n.driver == driver && fresh(n.sess) && len(n.sess) == 0
+//@   modifies nothing
+//@   serves C05
+
+//@ func (s *PfcpServer) handleAssociationSetupRequest(req *message.AssociationSetupRequest, addr net.Addr)
+//@   requires srvInv(s) && req != nil && req.Header != nil && addr != nil
+//@   ensures [inv]      srvInv(s)
+//@   ensures [early]    (req.NodeID == nil || !ok(req.NodeID.NodeID())) ==> DP == old(DP) && (forall id uint64 :: live(s.lnode, id) == old(live(s.lnode, id)))
+//@   ensures [reset]    req.NodeID != nil && ok(req.NodeID.NodeID()) && old(val(req.NodeID.NodeID()) in s.rnodes) ==>
+//@                        (forall sid uint64 :: sid in old(s.rnodes[val(req.NodeID.NodeID())].sess) ==> !live(s.lnode, sid))
+//@   ensures [others]   forall sid uint64 :: !(req.NodeID != nil && ok(req.NodeID.NodeID()) && old(val(req.NodeID.NodeID()) in s.rnodes) && sid in old(s.rnodes[val(req.NodeID.NodeID())].sess)) ==>
+//@                        (live(s.lnode, sid) == old(live(s.lnode, sid))) && (old(live(s.lnode, sid)) ==> s.lnode.sess[sid-1] == old(s.lnode.sess[sid-1]))
+//@   ensures [dpothers] forall k RuleKey :: !(req.NodeID != nil && ok(req.NodeID.NodeID()) && old(val(req.NodeID.NodeID()) in s.rnodes) && k.seid in old(s.rnodes[val(req.NodeID.NodeID())].sess)) ==>
+//@                        ((k in DP) == (k in old(DP)))
+//@   ensures [node]     req.NodeID != nil && ok(req.NodeID.NodeID()) ==> val(req.NodeID.NodeID()) in s.rnodes &&
+//@                        s.rnodes[val(req.NodeID.NodeID())].addr == addr && fresh(s.rnodes[val(req.NodeID.NodeID())]) && len(s.rnodes[val(req.NodeID.NodeID())].sess) == 0
+//@   modifies *
+//@   reveal srvWF
+//@   reveal nodesWF
+//@   reveal linked
+//@   reveal lnodeWF
+//@   reveal allSessOK
+//@   serves C01 C04 C05 C08 C07
+//@   at call NewAssociationSetupResponse:
+//@     assert [seq]      arg0 == req.Header.SequenceNumber
+//@     assert [cause]    len(arg1) == 3 && arg1[1] == ie.NewCause(ie.CauseRequestAccepted)
+//@     assert [recovery] arg1[2] == ie.NewRecoveryTimeStamp(s.recoveryTime)
+//@   at call sendRspTo:
+//@     assert [to] arg1 == addr && arg0 == iface(rsp)
